@@ -158,9 +158,13 @@ func (r *relay) relayFrames(closing chan bool) error {
 	// writer thread must still wait until `readerDone` has been communicated to stop processing.
 
 	// Communicates to the consuming writer goroutine that the reader (the calling goroutine of this
-	// method) is done.
+	// method) is done. The channel is closed rather than sent on: the writer may be blocked in a
+	// write toward a destination that has stopped reading, and this function must still return so
+	// that the session can be ended. The writer notices the closed channel the next time it
+	// selects; a write toward the server is interrupted when the session closes that connection, a
+	// write toward the client when the caller closes the client connection.
 	readerDone := make(chan struct{})
-	defer func() { readerDone <- struct{}{} }()
+	defer close(readerDone)
 
 	// Communicates errors occuring on the writer goroutine to the reader goroutine.
 	writerErr := make(chan error, 1)
